@@ -1244,6 +1244,33 @@ def hist_step(H):
             if not (cont == shuffled) or not (shuffled == cont):
                 ctx.fail("eq_reflects_content", "%s == container with the same content inserted in another key order is False" % where,
                          order=[str(k) for k in order])
+            if not flv.binary and level in (0, 1):
+                # the same comparison between two containers that were parsed from their texts and not touched yet
+                # (their parts are still held as text): equality is a statement about content, not about layout or
+                # about how much of the file has been looked at
+                def _deep(mm, lv):
+                    """same content, every category's columns in reverse order"""
+                    if lv == 2:
+                        out = CatModel((k_, mm[k_]) for k_ in reversed(list(mm.keys())))
+                        out.nrows = getattr(mm, "nrows", None)
+                        return out
+                    return {k_: _deep(v_, lv + 1) for k_, v_ in mm.items()}
+                try:
+                    ta = cont.serialize()
+                    tb = make(flv, _deep(sm, level), level, int(rng.integers(12))).serialize()
+                except (SerializationError, ValueError) as e:
+                    ctx.exc(e)
+                else:
+                    A, B = type(cont).deserialize(ta), type(cont).deserialize(tb)
+                    ctx.op("eq_of_untouched_parsed_containers")
+                    before = (A == B) and (B == A)
+                    for x in (A, B):
+                        for kk in list(x.keys()):
+                            x[kk]                           # look at every part once
+                    after = (A == B) and (B == A)
+                    if not before or not after:
+                        ctx.fail("eq_reflects_content", "%s: two containers parsed from texts with the same content in another key order compare "
+                                 "%s before and %s after their parts were accessed" % (where, before, after), order=[str(k) for k in order])
         if level == 2 and keys:
             k = pick(rng, keys)
             col, tcol = cont[k], make(flv, m[k], 3, int(rng.integers(12)))
